@@ -4,6 +4,8 @@ import (
 	"fmt"
 	"go/token"
 	"go/types"
+	"sort"
+	"strings"
 
 	"golang.org/x/tools/go/ssa"
 )
@@ -25,6 +27,8 @@ func init() {
 			{ID: "R07b", Floor: 4, Doc: "positional agreement of the five FindCid call sites", Run: ruleR07b},
 			{ID: "R07c", Floor: 2 + 3, Doc: "payload window and index source in NewReadOnly/OpenReadable; options forwarded to option-taking callees", Run: ruleR07c},
 			{ID: "R07e", Floor: 1, Doc: "a caller-supplied index is used as given (never replaced by an embedded or generated one)", Run: ruleR07e},
+			{ID: "R07i", Floor: 1, Doc: "identity answers carry the decoder's digest (= R04g)", Run: ruleR04g},
+			{ID: "R07j", Floor: 5, Doc: "answer provenance: what Has/Get/GetSize/GetStream return is computed from this call's store.FindCid / store.IsIdentity results, the key and the backing reader only — never from state remembered on the store between calls", Run: ruleR07j},
 			{ID: "R07g", Floor: 2, Doc: "the insertion index keeps records with equal digests side by side (= R03f)", Run: ruleR03f},
 			{ID: "R07h", Floor: 1, Doc: "InsertionIndex.GetAll offers every record with the key's digest (= R03g)", Run: ruleR03g},
 			{ID: "R07f", Floor: 1, Doc: "index generation loads the index once (= R03h)", Run: ruleR03h},
@@ -140,12 +144,12 @@ func ruleR07a(c *Ctx, r *Report) {
 	})
 	if bad == "" {
 		for _, e := range eqWhole {
-			if reach(cb, nil, edgeSet(wholeTrue))[e.From] {
+			if reach(cb, nil, edgeSet(wholeTrue))[condBlock(e)] {
 				bad = "the whole-CID confirmation is not confined to the UseWholeCIDs branch"
 			}
 		}
 		for _, e := range eqHash {
-			if reach(cb, nil, edgeSet(wholeFalse))[e.From] {
+			if reach(cb, nil, edgeSet(wholeFalse))[condBlock(e)] {
 				bad = "the multihash confirmation is not confined to the !UseWholeCIDs branch"
 			}
 		}
@@ -445,11 +449,11 @@ func ruleR07d(c *Ctx, r *Report) {
 	}
 	cut := EdgeSet{}
 	for i := range sel.Block().Succs {
-		cut[Edge{sel.Block(), i}] = true
+		cut[Edge{From: sel.Block(), Succ: i}] = true
 	}
 	bad := ""
 	for i := range cids[0].Block().Succs {
-		if reachFromEdge(g, Edge{cids[0].Block(), i}, cut)[lens[0].Block()] && cids[0].Block() != sel.Block() {
+		if reachFromEdge(g, Edge{From: cids[0].Block(), Succ: i}, cut)[lens[0].Block()] && cids[0].Block() != sel.Block() {
 			bad = "the scan can move on to the next section without sending the current section's key (e.g. de-duplicating keys): the listing is no longer the scan's CID sequence"
 		}
 	}
@@ -492,4 +496,95 @@ func ruleR07e(c *Ctx, r *Report) {
 		})
 	}
 	r.Check(bad == "", key, c.Pos(fn.Pos()), "an index is read or generated only behind idx == nil", bad)
+}
+
+// ruleR07j: a lookup answer is a function of (index, payload, key) of this call.
+func ruleR07j(c *Ctx, r *Report) {
+	var leavesOf func(fn *ssa.Function, res int, depth int, seen map[*ssa.Function]bool) []string
+	leavesOf = func(fn *ssa.Function, res int, depth int, seen map[*ssa.Function]bool) []string {
+		var bad []string
+		if seen[fn] || depth > 3 {
+			return nil
+		}
+		seen[fn] = true
+		defer delete(seen, fn)
+		opts := originOpts{binops: true}
+		opts.through = func(call *ssa.Call, f *types.Func) []ssa.Value {
+			if funcIs(f, pkgStore, "", "FindCid") || funcIs(f, pkgStore, "", "IsIdentity") {
+				return nil
+			}
+			if f != nil {
+				if callee := c.Prog.FuncValue(f); callee != nil && len(callee.Blocks) > 0 {
+					return nil // examined below, as a leaf
+				}
+			}
+			return callArgs(call.Common())
+		}
+		for _, ret := range returnsOf(fn) {
+			if res >= len(ret.Results) {
+				continue
+			}
+			for _, o := range origins(ret.Results[res], opts) {
+				switch o.Kind {
+				case "const", "param":
+				case "call":
+					if funcIs(o.Fn, pkgStore, "", "FindCid") || funcIs(o.Fn, pkgStore, "", "IsIdentity") {
+						continue
+					}
+					if o.Fn != nil {
+						if callee := c.Prog.FuncValue(o.Fn); callee != nil && len(callee.Blocks) > 0 {
+							bad = append(bad, leavesOf(callee, o.Res, depth+1, seen)...)
+							continue
+						}
+					}
+					bad = append(bad, fmt.Sprintf("result of %s at %s", funcKeyOrNil(o.Fn), c.Pos(o.Val.Pos())))
+				case "field":
+					n := ""
+					if o.Field != nil {
+						n = o.Field.Name()
+					}
+					if n == "reader" || n == "backing" {
+						continue
+					}
+					bad = append(bad, fmt.Sprintf("field %s read at %s", n, c.Pos(o.Val.Pos())))
+				default:
+					bad = append(bad, fmt.Sprintf("%s at %s", o.Kind, c.Pos(o.Val.Pos())))
+				}
+			}
+		}
+		return bad
+	}
+	for _, s := range [][3]string{
+		{pkgBS, "ReadOnly", "Has"}, {pkgBS, "ReadOnly", "Get"}, {pkgBS, "ReadOnly", "GetSize"},
+		{pkgStorage, "StorageCar", "Has"}, {pkgStorage, "StorageCar", "GetStream"},
+	} {
+		fn, err := c.Func(s[0], s[1], s[2])
+		if err != nil {
+			r.InfraFail("%v", err)
+			continue
+		}
+		key := "answer-provenance@" + fnKey(fn)
+		bad := leavesOf(fn, 0, 0, map[*ssa.Function]bool{})
+		sort.Strings(bad)
+		bad = uniqStrings(bad)
+		r.Check(len(bad) == 0, key, c.Pos(fn.Pos()), "answer computed from FindCid/IsIdentity results, the key and the backing only",
+			"the answer also depends on "+strings.Join(bad, "; ")+": a lookup must be decided by the index and payload for this key, not by remembered state")
+	}
+}
+
+func funcKeyOrNil(f *types.Func) string {
+	if f == nil {
+		return "a dynamic call"
+	}
+	return funcKey(f)
+}
+
+func uniqStrings(in []string) []string {
+	var out []string
+	for i, x := range in {
+		if i == 0 || x != in[i-1] {
+			out = append(out, x)
+		}
+	}
+	return out
 }
